@@ -237,9 +237,78 @@ def fresh_interpreter(rep):
                 replay=dict(reproduced=True, detail=p.stdout.strip()[-400:]), replay_script=f"import subprocess\nenv = dict(os.environ); env['PYTHONPATH'] = {REPO!r}; env['PYTHONDONTWRITEBYTECODE'] = '1'\np = subprocess.run([sys.executable, '-c', {FRESH_SRC!r}], env=env, cwd='/')\nsys.exit(p.returncode)\n")
     rep.bounded.append(dict(kind='fresh interpreter: standard-library imports under beartyping() / beartype_all() (bounded stand-in, NOT counted as proved)', modules=17, failing=int(p.returncode == 1)))
 
+THIS_SRC = """
+import sys, os, tempfile
+td = tempfile.mkdtemp(prefix='c06this_'); sys.path.insert(0, td)
+def w(rel, text=''):
+    p = os.path.join(td, rel); os.makedirs(os.path.dirname(p), exist_ok=True); open(p, 'w').write(text)
+CALL = 'from beartype.claw import beartype_this_package\\nbeartype_this_package()\\n'
+w('c06tp/__init__.py'); w('c06tp/sub/__init__.py'); w('c06tp/sub/_boot.py', CALL); w('c06tp/sub/mod.py', 'def f(x: int) -> int:\\n    return x\\n')
+w('c06tp/other/__init__.py', CALL); w('c06tp/other/m.py'); w('c06tp/third/__init__.py'); w('c06tp/third/deep/__init__.py'); w('c06tp/third/deep/boot2.py', CALL)
+from beartype import BeartypeConf
+from beartype.claw import beartype_package
+from beartype.claw._package.clawpkgtrie import get_package_conf_or_none as conf_of      # observation only
+from beartype.roar import BeartypeClawHookException
+bad = []
+def hooked(n): return conf_of(n) is not None
+import c06tp.sub._boot                        # a non-__init__ module of package c06tp.sub calls beartype_this_package()
+exp = {'c06tp.sub.mod': True, 'c06tp.sub._boot.anything': True, 'c06tp.sub': True, 'c06tp.other.m': False, 'c06tp.third.deep.x': False, 'c06tp': False}
+for n, e in exp.items():
+    if hooked(n) != e: bad.append(f'after beartype_this_package() in module c06tp.sub._boot: {n} hooked={hooked(n)}, expected {e} (the package of the caller is c06tp.sub)')
+import c06tp.other                             # a package __init__ calls it
+if not hooked('c06tp.other.m') or hooked('c06tp.third.x'): bad.append('after beartype_this_package() in c06tp/other/__init__.py: c06tp.other.m hooked=%s, c06tp.third.x hooked=%s' % (hooked('c06tp.other.m'), hooked('c06tp.third.x')))
+beartype_package('c06tp.third.deep', conf=BeartypeConf(is_debug=True))
+try:
+    import c06tp.third.deep.boot2             # registers c06tp.third.deep again under the DEFAULT configuration: a conflict
+    bad.append('beartype_this_package() in c06tp.third.deep.boot2 did not conflict with the earlier registration of c06tp.third.deep under another configuration')
+except BeartypeClawHookException: pass
+import c06tp.sub.mod
+try: c06tp.sub.mod.f('x'); bad.append('c06tp.sub.mod was imported unchecked')
+except Exception as e:
+    if 'Violation' not in type(e).__name__: bad.append(f'c06tp.sub.mod.f: {type(e).__name__}')
+print(bad[:3]); sys.exit(1 if bad else 0)
+"""
+def this_package(rep):
+    """beartype_this_package() registers the package CONTAINING the calling module.  (F) get_frame_package_name_or_none returns the caller's
+    package - its `__package__`, equivalently `__spec__.parent` (import-system invariant, trusted) - never the module's own name;
+    (b) real on-disk packages calling it from a non-__init__ module, from an __init__ and against an earlier conflicting registration."""
+    from pyvc import funcmode, model as M, discharge, symx, REPO
+    from pyvc.symx import Exec, St, VObj, VPy
+    import beartype._util.func.utilfuncframe as mod
+    fobj, node, _ = funcmode.load('beartype/_util/func/utilfuncframe.py', 'get_frame_package_name_or_none')
+    uni = M.Universe(); NONE = uni.const(None)
+    FRAME = z3.Const('frame', M.Obj); GL = z3.Const('frame_globals', M.Obj); SPEC = z3.Const('module_spec', M.Obj); PKG = z3.Const('dunder_package', M.Obj)
+    def m_get(ex, s, f, a, kw, w):
+        key = a[0].o if isinstance(a[0], VPy) else None
+        if key == '__package__': return [(s, VObj(PKG))]
+        if key == '__spec__': return [(s2, VPy(None) if none else VObj(SPEC)) for s2, none in ex.fork(s, z3.Bool('spec_is_none'))]
+        return [(s, VObj(M.fresh('global_' + str(key))))]
+    ex = Exec(uni, dict(mod.__dict__), call_model={'.get': m_get}, name='frame_package'); ex.fields_mode = True; ex.method_names = {'get'}
+    body = [st for st in node.body if not isinstance(st, ast.Assert) and not (isinstance(st, ast.Expr) and isinstance(st.value, ast.Constant))]
+    try: outs = ex.exec_block(body, St((('frame', VObj(FRAME)),), (SPEC != NONE,)))
+    except symx.Unsupported as e: rep.error(f'C06.this_package: unsupported: {e}'); outs = []
+    pr = discharge.Prover(uni.axioms()); n = 0
+    PARENT = z3.Select(z3.Const('H_parent', z3.ArraySort(M.Obj, M.Obj)), SPEC)
+    for i, (kind, s_, v) in enumerate(outs):
+        if kind != 'return': continue
+        n += 1
+        r = pr.prove(list(s_.pc), z3.Or(ex.obj(v) == PKG, z3.And(z3.Not(z3.Bool('spec_is_none')), ex.obj(v) == PARENT)))
+        rep.add(f'C06.this_package.frame_package.post.is_the_callers_package.path{i}', r.status, time=r.time, backend=r.backend, reason=r.reason,
+                where="returns the calling module's __package__ (or __spec__.parent): the package that CONTAINS the caller, for __init__ and non-__init__ callers alike")
+    if not n: rep.error('C06.this_package: no returning path')
+    import subprocess
+    env = dict(os.environ); env['PYTHONPATH'] = REPO; env.pop('PYTHONDONTWRITEBYTECODE', None); env['PYTHONDONTWRITEBYTECODE'] = '1'
+    p = subprocess.run([sys.executable, '-c', THIS_SRC], capture_output=True, text=True, timeout=180, env=env, cwd='/')
+    if p.returncode not in (0, 1) or (p.returncode == 1 and not p.stdout.strip().startswith('[')): rep.error('C06 this_package harness: ' + (p.stdout + p.stderr)[-700:]); return
+    if p.returncode == 1:
+        rep.add('C06.this_package.bounded.registers_the_callers_package', 'refuted', backend='runtime-contract', bounded=True, where=p.stdout.strip()[-500:], solver_output='bounded run-time contract in a fresh interpreter (not a proof)',
+                replay=dict(reproduced=True, detail=p.stdout.strip()[-300:]), replay_script=f"import subprocess\nenv = dict(os.environ); env['PYTHONPATH'] = os.environ.get('VERIF_REPO', {REPO!r}); env['PYTHONDONTWRITEBYTECODE'] = '1'\np = subprocess.run([sys.executable, '-c', {THIS_SRC!r}], env=env, cwd='/')\nsys.exit(p.returncode)\n")
+    rep.bounded.append(dict(kind='beartype_this_package() called from real on-disk modules (non-__init__, __init__, conflicting) (bounded stand-in, NOT counted as proved)', scenarios=4, failing=int(p.returncode == 1)))
+    rep.functions.append('beartype/_util/func/utilfuncframe.py:get_frame_package_name_or_none (mode F; leading assert dropped)')
+
 def main(tier, seed):
     rep = report.Report('C06', tier, seed, 'proof', f'./check C06 --tier {tier}')
-    for fn in (lookup, registration, fresh_interpreter, histories):
+    for fn in (lookup, registration, fresh_interpreter, this_package, histories):
         try: fn(rep) if fn is not histories else fn(rep, tier, seed)
         except Exception: rep.error(f'C06 {fn.__name__}: ' + traceback.format_exc()[-2500:])
     files = ['beartype/claw/_package/clawpkgtrie.py', 'beartype/claw/_package/clawpkgmain.py', 'beartype/claw/_package/clawpkgcontext.py', 'beartype/claw/_package/_clawpkgmake.py', 'beartype/claw/_clawstate.py']
